@@ -1322,8 +1322,12 @@ def l2_case(r: random.Random, idx: int) -> dict:
             steps.append(['wait_quiet', 1.0, 30.0])
             order, queued = [], {}
             ops.append(('barrier',))
-    steps += [['wait_quiet', 2.0, 40.0], ['snapshot', 'end'], ['mark', 'end']]
-    return {'config': cfg, 'steps': steps, 'vtimeout': 400.0, 'wall': 120.0, 'quantum': 0.0005, 'rx_limit': 70000, 'ops': ops, 'intended': intended, 'nfill': nfill, 'group': group}
+    # bounded progress: with rate-limit the peer loop sends one route per iteration, an iteration waits up to 0.1 s for a
+    # message from the peer: about ten routes a second. The bound is what the history asks to be sent at that pace, plus margin
+    resends = 1 + sum(1 for o in ops if o[0] in ('flush', 'refresh'))
+    bound = 40.0 + (0.15 * (nfill + 8) * resends if cfg.get('rate_limit') else 0.0)
+    steps += [['wait_quiet', 2.0, bound], ['snapshot', 'end'], ['mark', 'end']]
+    return {'config': cfg, 'steps': steps, 'vtimeout': 400.0 + bound, 'wall': 120.0, 'quantum': 0.0005, 'rx_limit': 70000, 'ops': ops, 'intended': intended, 'nfill': nfill, 'group': group}
 
 
 def run_level2(desc):
@@ -1346,6 +1350,10 @@ def run_level2(desc):
             res.inconclusive.append(f'L2 case did not complete: {rec["notes"]}')
             continue
         sess = rec['sessions'][0]
+        last_rx = sess['rx'][-1][0] if sess['rx'] else 0.0
+        if rec['end'] - last_rx < 1.5:
+            res.count('L2-case-not-judged:line-not-quiet-at-the-bound')  # nothing can be said about a queue which is still draining
+            continue
         wit = {'ops': case['ops'], 'nfill': case['nfill'], 'group_updates': case['group'], 'rate_limit': case['config'].get('rate_limit'), 'api': [s_[1] for s_ in case['steps'] if s_[0] == 'api'][:40]}
         if sess['eof_at'] is not None:
             res.violation('C04/L2-session-lost', 'the session ended during the history', wit, cls)
